@@ -483,7 +483,20 @@ def gen_world(rng, n_inputs=None, n_formulas=None, sheets=None, names=True,
             members = [addr(s, c, r) for r in range(r1, r2 + 1)
                        for c in range(c1, c2 + 1)]
             if a1 != a2 and all(m in cells for m in members):
-                rnames['rng_' + rng.choice('abc')] = f'{s}!{a1}:{a2}'
+                rn = 'rng_' + rng.choice('abc')
+                rnames[rn] = f'{s}!{a1}:{a2}'
+                if rng.random() < 0.5 and all(
+                        level.get(m, 0) < max_depth for m in members):
+                    # a formula that uses the range name (the library reads
+                    # it as blank today: a soft dependency)
+                    fa = place(rng.choice(sheet_list))
+                    if fa not in members:
+                        cells[fa] = '=' + rng.choice(
+                            ['SUM({n})', 'COUNT({n})+1', 'MAX({n})',
+                             'SUM({n})*2']).format(n=rn)
+                        deps[fa] = []
+                        soft[fa] = list(members)
+                        level[fa] = 1 + max(level.get(m, 0) for m in members)
     return {'sheets': sheet_list, 'cells': cells, 'deps': deps,
             'level': level, 'names': wnames, 'stale': wstale,
             'ranges_used': ranges_used, 'range_names': rnames,
@@ -491,8 +504,74 @@ def gen_world(rng, n_inputs=None, n_formulas=None, sheets=None, names=True,
                                          if k != 'pending'}}
 
 
+def world_from_workbook(wb, knobs=None):
+    """World description of a generated workbook (dsim.xlsx): the model is
+    obtained by *loading the .xlsx* from the simulated disk, so whatever the
+    reader / compiler path does differently from the dict path is in play.
+    Formulas may be cyclic or refer to anything; deps are derived from the
+    generator's own reference tokens."""
+    from . import xlsx
+    cells, deps, level, order = {}, {}, {}, []
+    names, rnames = {}, {}
+    stored_all = {f'{sh["name"]}!{c}' for sh in wb['sheets']
+                  for c in sh['cells']}
+    for sh in wb['sheets']:
+        for coord, spec in sh['cells'].items():
+            a = f'{sh["name"]}!{coord}'
+            order.append(a)
+            if spec['form'] == 'f':
+                s_ = spec.get('shared')
+                dc, dr = (s_['dc'], s_['dr']) if s_ else (0, 0)
+                cells[a] = '=' + xlsx.render_formula(spec['parts'], dc, dr)
+                ds = []
+                for p in spec['parts']:
+                    if isinstance(p, dict):
+                        if 'c2' not in p and (p.get('ac1') or p.get('ar1')):
+                            # $A$1-style single references are not resolved
+                            # by the library (soft dependency)
+                            continue
+                        ds.extend(xlsx.ref_members(p, sh['name'], dc, dr))
+                    elif p in wb['names'] and ':' not in wb['names'][p]['ref']:
+                        t = wb['names'][p]
+                        if f'{t["sheet"]}!{t["ref"]}' in stored_all:
+                            # (a name whose target is stored nowhere is not
+                            # bound by the library)
+                            ds.append(f'{t["sheet"]}!{t["ref"]}')
+                deps[a] = list(dict.fromkeys(ds))
+                level[a] = 1
+            else:
+                cells[a] = spec['value']
+                deps[a] = []
+                level[a] = 0
+    stored = set(order)
+    for n, t in wb['names'].items():
+        target = f'{t["sheet"]}!{t["ref"]}'
+        if ':' in t['ref']:
+            rnames[n] = target
+        elif target in stored:
+            names[n] = target
+    return {'sheets': [sh['name'] for sh in wb['sheets']], 'cells': cells,
+            'deps': deps, 'level': level, 'names': names, 'stale': {},
+            'ranges_used': {}, 'range_names': rnames, 'order': order,
+            'soft_deps': {}, 'xlsx': wb, 'xlsx_knobs': knobs or {}}
+
+
 def world_model(world, cells=None, stale=False, build_code=True):
     """Real Model for a world (optionally with other current cell contents)."""
+    if world.get('xlsx') is not None:
+        from . import xlsx
+        from .seams import _Installed
+        fs = _Installed.fs
+        path = '/simfs/world.xlsx'
+        fs.put(path, xlsx.render_xlsx(world['xlsx'], world.get('xlsx_knobs')))
+        model = ModelCompiler().read_and_parse_archive(
+            path, build_code=build_code)
+        fs.reset_op()
+        if cells is not None:
+            for a, v in cells.items():
+                if world['level'].get(a, 0) == 0 and v != world['cells'].get(a):
+                    model.set_cell_value(a, dec(v))
+        return model
     src = cells if cells is not None else world['cells']
     py = {a: dec(v) for a, v in src.items()}
     names = {n: dollar(a) for n, a in world['names'].items()}
